@@ -42,6 +42,7 @@ type ChanPlan struct {
 	OpenClose    bool   `json:"open_close"`    // client: the only send is SendAndClose (open+close batch); C2S is empty
 	RecvDelayUs  [2]int `json:"recv_delay_us"` // lazy receivers: [client side, server side]
 	SrvChanCtx   bool   `json:"srv_chan_ctx"`  // the handler uses its channel context for Send/Receive
+	StartUs      int    `json:"start_us,omitempty"`
 	Victim       bool   `json:"victim,omitempty"`
 	// double end: the other side ("Y") also ends the channel on its own, after YEndRecv messages,
 	// so that both ends race. YEnd is 1+kind of Y's ending action (0: Y only reacts).
@@ -136,7 +137,10 @@ type flowRun struct {
 	samples          []string
 	post             func(net *simnet.Net, eps []*endpoint) // after the channels are done, before teardown
 	extra            func(net *simnet.Net, eps []*endpoint) // after the endpoints exist, before traffic
+	beforePost       func(net *simnet.Net)                  // after the channels are done: end of the fault phase
 	tap              func(conn, dir int, data []byte)
+	srv              mpx.Server
+	srvUp            bool
 	hostile          bool // scripted raw peers share the server: errors on their connections are expected
 	foreign          func(h header, first []byte, ctx mpx.Context, ch mpx.Channel) status.Status
 	probes           int
@@ -272,6 +276,9 @@ type opener func(ctx async.Context) (mpx.Channel, status.Status)
 // runChannelClient is the client side of one channel.
 func (r *flowRun) runChannelClient(cs *chanState, open opener) {
 	cp := cs.plan
+	if cp.StartUs > 0 {
+		hSleep(time.Duration(cp.StartUs) * time.Microsecond)
+	}
 	ch, st := open(r.bg)
 	cs.openSt = stName(st)
 	if !st.OK() {
